@@ -194,8 +194,12 @@ func (b *backend) funcs() *ociregistry.Funcs {
 
 // inproc feeds the handler through a ResponseRecorder and re-parses the serialized response
 // with http.ReadResponse, so the client sees what it would get off a socket (no body on HEAD).
+// headNoCType counts failed HEAD responses delivered without a Content-Type.
+var headNoCType atomic.Int64
+
 type inproc struct {
-	h http.Handler
+	h        http.Handler
+	bareHead bool // failed HEAD responses carry no Content-Type
 	n atomic.Int64
 }
 
@@ -236,6 +240,12 @@ func (t *inproc) RoundTrip(req *http.Request) (*http.Response, error) {
 		res.TransferEncoding = []string{"chunked"}
 		res.Header.Del("Content-Length")
 	}
+	// In half of the cases every failed HEAD response is sent the way a server sends one when its error writer
+	// produces no body for HEAD: nothing to describe, so no Content-Type either.
+	if t.bareHead && req.Method == "HEAD" && res.StatusCode >= 400 {
+		res.Header.Del("Content-Type")
+		headNoCType.Add(1)
+	}
 	if noBody {
 		res.Body = http.NoBody
 	} else {
@@ -253,7 +263,7 @@ type chain struct {
 	cleanup func()
 }
 
-func buildChain(b ociregistry.Interface, hops int, loopback bool) (*chain, error) {
+func buildChain(b ociregistry.Interface, hops int, loopback, bareHead bool) (*chain, error) {
 	ch := &chain{}
 	var servers []*httptest.Server
 	var tr *http.Transport
@@ -278,7 +288,7 @@ func buildChain(b ociregistry.Interface, hops int, loopback bool) (*chain, error
 			servers = append(servers, s)
 			c, err = ociclient.New(s.Listener.Addr().String(), &ociclient.Options{Insecure: true, Transport: tr, DebugID: "cl"})
 		} else {
-			c, err = ociclient.New(fmt.Sprintf("hop%d.test", i+1), &ociclient.Options{Insecure: true, Transport: &inproc{h: h}, DebugID: "cl"})
+			c, err = ociclient.New(fmt.Sprintf("hop%d.test", i+1), &ociclient.Options{Insecure: true, Transport: &inproc{h: h, bareHead: bareHead}, DebugID: "cl"})
 		}
 		if err != nil {
 			ch.cleanup()
